@@ -510,6 +510,18 @@ func reifyMergeValue(
 
 	baseType := chaseTypePointers(old.Type())
 
+	// a struct, an array or a nil map held by an interface by value can not be
+	// changed in place: merge into a copy, which replaces the held value
+	held := false
+	if !old.CanAddr() && !isConfigType(baseType) {
+		switch k := old.Kind(); {
+		case k == reflect.Struct, k == reflect.Array, k == reflect.Map && old.IsNil():
+			tmp := reflect.New(old.Type()).Elem()
+			tmp.Set(old)
+			old, held = tmp, true
+		}
+	}
+
 	if isConfigType(baseType) {
 		sub, err := val.toConfig(opts.opts)
 		if err != nil {
@@ -565,6 +577,9 @@ func reifyMergeValue(
 			// struct types unpacked from primitive values (e.g. regexp.Regexp),
 			// like in reifyValue
 			return reifyPrimitive(opts, val, t, baseType)
+		}
+		if held {
+			return old, reifyStruct(opts.opts, old, sub)
 		}
 		return oldValue, reifyStruct(opts.opts, old, sub)
 
